@@ -1,5 +1,5 @@
 CONSTANTS Names = {"x", "y", "CFG"}
-          ItemKeys = {"a", "b"}
+          ItemKeys = {"a"}
           ItemVals = {1, 2}
           MaxDepth = 2
           MaxLen = 3
